@@ -206,6 +206,59 @@ static int rateMonitoring(int readers, long ops)
   return 0;
 }
 
+// RateMonitoring, value consistency against the SEQUENTIAL behaviour (what `Romea.C19.rate_monitoring_serialisable`
+// states of the model): window of 4 periods (expected rate 2 Hz), one writer calling update(k * 0.6 s), k = 0, 1, 2, ...,
+// 1..4 heartbeat threads calling timeout(j * 0.6 s) with j = the index the writer published before starting update j,
+// and getRate.  In EVERY serial order of these calls that respects real time:
+//   * a heartbeat carrying index j runs after update j-1 returned, so the last stamp it can see is (j-1)*0.6 s or later:
+//     it fires (0.6 s > 0.5 s: rate := 0) only if it is ordered BEFORE update j, and then update j stores its rate after it;
+//   * update k, k >= 4 (window full), stores X = 1e9 / (4 * 0.6e9 / 4.0) and returns rate_.load() in the same critical
+//     section: it returns exactly X; for k < 4 the rate has never been stored: it returns exactly 0;
+//   * the rate is always 0 or X; after the last update (no later stamp exists) it is X.
+// A change that lets a heartbeat in between update's bookkeeping and its final `lastDuration_.store / rate_.load`
+// (e.g. a shortened critical section) makes update return 0 with the window full: no data race, but no serial order.
+static int rateMonitoringSerial(int readers, long ops)
+{
+  const long long P = 600000000LL;
+  RateMonitoring m(2.0);
+  const double X = 1000000000. / (static_cast<double>(4 * P) / 4.0);
+  if (readers < 1) { readers = 1; }
+  if (readers > 4) { readers = 4; }
+  if (ops < 8) { ops = 8; }
+  std::atomic<bool> stop{false};
+  std::atomic<long long> now{0};
+  std::vector<std::thread> th;
+  for (int r = 0; r < readers; ++r) {
+    th.emplace_back([&] {
+        while (!stop.load()) {
+          long long j = now.load();
+          m.timeout(Duration(j * P));
+          double x = m.getRate();
+          if (x != 0. && x != X) { fail("getRate returned a value that is neither 0 nor the rate of a full window"); }
+          ++checks;
+        }
+      });
+  }
+  for (long long k = 0; k < ops; ++k) {
+    now.store(k);
+    double r = m.update(Duration(k * P));
+    if (k < 4) {
+      if (r != 0.) { fail("update returned a rate before the window was full"); }
+    } else if (r != X) {
+      char buf[200];
+      std::snprintf(buf, sizeof buf, "update #%lld returned %.9g with the window full; every sequential order of the calls gives %.9g", k, r, X);
+      fail(buf);
+    }
+    ++checks;
+  }
+  stop.store(true);
+  for (auto & t2 : th) { t2.join(); }
+  double x = m.getRate();
+  if (x != X) { fail("after the last update (no later stamp) the rate is not the rate of the full window"); }
+  ++checks;
+  return 0;
+}
+
 template<class C> static int checkupRate(int readers, long ops)
 {
   C c("src", 10.0, 1.0);
@@ -249,6 +302,7 @@ int main(int argc, char ** argv)
   else if (s == "checkup_lower_than") { checkup<CheckupLowerThan<double>>(readers, ops, 2, false); }
   else if (s == "checkup_reliability") { reliability(readers, ops); }
   else if (s == "rate_monitoring") { rateMonitoring(readers, ops); }
+  else if (s == "rate_monitoring_serial") { rateMonitoringSerial(readers, ops); }
   else if (s == "checkup_rate_eq") { checkupRate<CheckupEqualToRate>(readers, ops); }
   else if (s == "checkup_rate_gt") { checkupRate<CheckupGreaterThanRate>(readers, ops); }
   else { std::fprintf(stderr, "unknown scenario\n"); return 2; }
